@@ -71,6 +71,7 @@ func init() {
 			{ID: "C03-R39", Title: "what errors.As found is used only when it found it", Floor: 1, Run: whatErrorsAsFoundIsUsedOnlyWhenItFoundIt},
 			{ID: "C03-R40", Title: "the cursor is compared with the length before the character is read", Floor: 1, Run: theCursorIsComparedWithTheLengthBeforeTheCharacterIsRead},
 			{ID: "C03-R41", Title: "equality is not handed back and forth between two types", Floor: 1, Run: equalityIsNotHandedBackAndForth},
+			{ID: "C03-R42", Title: "what a table may not hold is not dereferenced", Floor: 1, Run: whatATableMayNotHoldIsNotDereferenced},
 		},
 	})
 }
